@@ -370,11 +370,11 @@ def finish(check: Check, tier, seed, n_cases, results, wall) -> int:
     for mech, path, n, detail in replay_paths:
         print(f"[{check.id}] violation mechanism={mech} cases={n} detail={str(detail)[:300]}")
         print(f"VIOLATION property={check.id} replay={path}")
+    for r in inconclusive_reasons:
+        print(f"[{check.id}] INCONCLUSIVE: {r}")
     if new_viol:
         return 1
     if inconclusive_reasons:
-        for r in inconclusive_reasons:
-            print(f"[{check.id}] INCONCLUSIVE: {r}")
         return 2
     print(f"[{check.id}] held on everything explored")
     return 0
